@@ -656,23 +656,102 @@ impl<I: Iterator> Iterator for Opaque<I> {
     }
 }
 
+/// A pattern object that owns its bytes: produced lazily by the feeding iterator and dropped by
+/// the builder after each item, so the storage of one pattern is free for the next.
+pub struct PatOwned {
+    bytes: Vec<u8>,
+    hook: fn(),
+}
+
+impl AsRef<[u8]> for PatOwned {
+    fn as_ref(&self) -> &[u8] {
+        (self.hook)();
+        &self.bytes
+    }
+}
+
+impl AsRef<str> for PatOwned {
+    fn as_ref(&self) -> &str {
+        (self.hook)();
+        unsafe { std::str::from_utf8_unchecked(&self.bytes) }
+    }
+}
+
+/// A pattern object that stores its bytes inline and is handed over by value (what `[u8; N]` keys
+/// are to a caller): successive items occupy the same stack slot inside the builder's loop.
+#[derive(Clone, Copy)]
+pub struct PatInline {
+    buf: [u8; PAT_INLINE_MAX],
+    len: u8,
+    hook: fn(),
+}
+
+pub const PAT_INLINE_MAX: usize = 32;
+
+impl AsRef<[u8]> for PatInline {
+    fn as_ref(&self) -> &[u8] {
+        (self.hook)();
+        &self.buf[..self.len as usize]
+    }
+}
+
+impl AsRef<str> for PatInline {
+    fn as_ref(&self) -> &str {
+        (self.hook)();
+        unsafe { std::str::from_utf8_unchecked(&self.buf[..self.len as usize]) }
+    }
+}
+
+/// How the patterns reach the builder: 0 = references into one live collection, 1 = the same
+/// behind an iterator without size hint, 2 = owned objects produced lazily, 3 = inline objects
+/// by value (falls back to 2 when a pattern does not fit).
+pub const N_FEEDS: u8 = 4;
+
 fn build_t<V: SimVal>(
     spec: &Spec,
     order: &[usize],
     hook: fn(),
-    opaque: bool,
+    feed: u8,
 ) -> Result<Box<dyn DynPma>, String> {
     let identity = order.iter().enumerate().all(|(i, &j)| i == j);
-    // `opaque`: the same input reaches the builder through an iterator that hides the exact
-    // size_hint of the slice iterator
-    let base = order.iter().map(|&i| {
-        hook();
-        Pat {
-            bytes: &spec.patterns[i],
-            hook,
+    let fits_inline = spec.patterns.iter().all(|p| p.len() <= PAT_INLINE_MAX);
+    match feed % N_FEEDS {
+        3 if fits_inline => {
+            let pats = order.iter().map(move |&i| {
+                hook();
+                let mut buf = [0u8; PAT_INLINE_MAX];
+                let p = &spec.patterns[i];
+                buf[..p.len()].copy_from_slice(p);
+                PatInline { buf, len: p.len() as u8, hook }
+            });
+            build_from::<V, PatInline>(spec, order, identity, Box::new(Opaque(pats)))
         }
-    });
-    let pats: Box<dyn Iterator<Item = Pat>> = if opaque { Box::new(Opaque(base)) } else { Box::new(base) };
+        2 | 3 => {
+            let pats = order.iter().map(move |&i| {
+                hook();
+                PatOwned { bytes: spec.patterns[i].clone(), hook }
+            });
+            build_from::<V, PatOwned>(spec, order, identity, Box::new(pats))
+        }
+        f => {
+            // `opaque`: the same input reaches the builder through an iterator that hides the exact
+            // size_hint of the slice iterator
+            let base = order.iter().map(move |&i| {
+                hook();
+                Pat { bytes: &spec.patterns[i], hook }
+            });
+            let pats: Box<dyn Iterator<Item = Pat>> = if f == 1 { Box::new(Opaque(base)) } else { Box::new(base) };
+            build_from::<V, Pat>(spec, order, identity, pats)
+        }
+    }
+}
+
+fn build_from<'a, V: SimVal, P: AsRef<[u8]> + AsRef<str> + 'a>(
+    spec: &'a Spec,
+    order: &'a [usize],
+    identity: bool,
+    pats: Box<dyn Iterator<Item = P> + 'a>,
+) -> Result<Box<dyn DynPma>, String> {
     match spec.variant {
         Variant::Bytewise => {
             let b = DoubleArrayAhoCorasickBuilder::new()
@@ -742,6 +821,10 @@ pub fn build_ordered(spec: &Spec, order: &[usize], hook: fn()) -> Result<Box<dyn
 }
 
 pub fn build_ordered_opt(spec: &Spec, order: &[usize], hook: fn(), opaque: bool) -> Result<Box<dyn DynPma>, String> {
+    build_ordered_feed(spec, order, hook, if opaque { 1 } else { 0 })
+}
+
+pub fn build_ordered_feed(spec: &Spec, order: &[usize], hook: fn(), opaque: u8) -> Result<Box<dyn DynPma>, String> {
     match spec.vtype {
         VType::U8 => build_t::<u8>(spec, order, hook, opaque),
         VType::U16 => build_t::<u16>(spec, order, hook, opaque),
